@@ -156,7 +156,6 @@ def _corpus_worker(args):
                         stats.known_hits[f.key] = stats.known_hits.get(f.key, 0) + 1
                         if f.key not in stats.first_desc or len(f.desc) < len(stats.first_desc[f.key]):
                             stats.first_desc[f.key] = f.desc
-                            stats.first_replay = getattr(stats, "first_replay", {})
                             stats.first_replay[f.key] = f.replay
                     else:
                         old = stats.violations.get(f.key)
@@ -214,15 +213,8 @@ def run(ctx):
     with multiprocessing.Pool(core.NWORKERS) as pool:
         for st_ in pool.imap_unordered(_corpus_worker, jobs):
             ctx.merge(st_)
-            for k, r in getattr(st_, "first_replay", {}).items():
-                ctx.extra.setdefault("_collect_replays", {}).setdefault(k, r)
     total = 20000 if ctx.thorough else 800
     infra = core.hypothesis_search(ctx, "pyv.c06", total, profiles=("single", "single", "single", "multi"))
-    collected = ctx.extra.pop("_collect_replays", {})
-    if ctx.collect_all():
-        os.makedirs("/verif/work/collect/C06", exist_ok=True)
-        for k, r in collected.items():
-            json.dump({"key": k, "replay": r}, open("/verif/work/collect/C06/%016x.json" % h64(k), "w"), indent=1)
     scratch = core.make_scratch("C06", "kf")
     rc = ctx.finish(RULE, False, [
         "the host is loaded by the other checks' builds, so the watchdog is generous (20 s, then 90 s alone); an input that only exceeds it under load is inconclusive, never a violation",
